@@ -184,6 +184,7 @@ pub fn int_g() -> impl Strategy<Value = IntG> {
     let b = boundary_ints();
     prop_oneof![
         5 => prop::sample::select(b).prop_map(IntG::Abs),
+        4 => prop::sample::select(vec![4i64, 8, 4, 8, 1, 0, 2, 3, 7, 64]).prop_map(|i| IntG::Abs(BigInt::from(i))),
         3 => (-20i64..=70).prop_map(|i| IntG::Abs(BigInt::from(i))),
         1 => any::<i64>().prop_map(|i| IntG::Abs(BigInt::from(i))),
         1 => (any::<i64>(), any::<u64>()).prop_map(|(a, b)| IntG::Abs(BigInt::from(a) * BigInt::from(b))),
